@@ -48,6 +48,15 @@ def run_ops(t, view, ops, out, prefix):
                     return '%d:%d:' % (a, b) + ','.join('1' if x else '0' for x in items)
                 return '%d:%d:' % (a, b) + ','.join(to_val(t[1], x) for x in items)
             out.append('%d.%s=%s' % (k, prefix, status(sl)))
+        elif o == 'sub':
+            def sub():
+                from pyimpl_store import child_of
+                ct, c = child_of(t, view, int(op[1]))
+                if isinstance(ct, str) or kind(ct) in ('Bv', 'Bl') or c is None:
+                    raise ValueError("not a mutable child view")
+                apply_op(ct, c, op[2])
+                return view.hash_tree_root().hex()
+            out.append('%d.%s=%s' % (k, prefix, status(sub)))
         elif o == 'iter':
             out.append('%d.%s=%s' % (k, prefix, status(lambda: to_val(t, view, 'roiter'))))
         elif o == 'nav':
